@@ -11,6 +11,7 @@ import Mahotas.Proofs.C06Gauss
 import Mahotas.Proofs.C06Const
 import Mahotas.Proofs.C06Transpose
 import Mahotas.Proofs.C06Separable
+import Mahotas.Proofs.Modes
 open Mahotas Mahotas.C06
 
 /-- **C06-T1 (generic kernel = defining sum).** For every border mode (nearest, wrap, reflect, mirror,
@@ -604,3 +605,15 @@ example :
     ((allPos f.shape).map fun p => c (convSpec .mirror f (outerShape 2 ws) (outerKernel 2 ws) p)) =
       [252, 272, 240, 36, 56, 24] := by
   decide +kernel
+
+/-- **C06 (tie to the source, generated tables).** The code by which the models number a border mode is the code the
+current source gives it in both places: `mode2int` of `mahotas/_filters.py` (what the wrappers send) and
+`enum ExtendMode` of `mahotas/_filters.h` (what `fix_offset` switches on); neither table has an entry the models do
+not know. Both tables are regenerated from the source on every run. -/
+theorem C06_mode_codes_agree (m : Mahotas.Mode) :
+    (Mahotas.Generated.pyModes.lookup m.name = some m.code ∧ Mahotas.Generated.cppModes.lookup m.name = some m.code) ∧
+    Mahotas.Generated.pyModes.length = 6 ∧ Mahotas.Generated.cppModes.length = 6 :=
+  ⟨Mahotas.mode_codes_agree m, Mahotas.mode_tables_complete.1, Mahotas.mode_tables_complete.2.1⟩
+
+/-- non-vacuity: `reflect` is mode 2 in both tables -/
+example : Mahotas.Generated.pyModes.lookup (Mahotas.Mode.reflect).name = some 2 := by decide
